@@ -8,7 +8,7 @@ CONSTANTS
   BindVals <- ClrBindVals
   MaxBindings = 5
   Enabled = {"Bind", "EnterScope", "ExitScope", "Call", "Clear", "Finalize", "Unlock", "RegisterHook", "Register",
-             "DefineConstant", "Interactive"}
+             "DefineConstant", "Interactive", "Import", "SingletonDirect"}
   NameOrder <- NamesClr
   HookUniverse <- ClrHooks
   BindApis = {"tuple", "text"}
